@@ -443,7 +443,7 @@ func c18GenCmdWorld(r *hx.Rng, op c18CmdOpts) c18CmdWorld {
 	if op.Stdin > 0 {
 		nF = 1
 	}
-	sers, sersDecoy := make([]string, 6), make([]string, 6)
+	sers, sersDecoy := make([]string, 8), make([]string, 8) // hashes 2*fi+k, fi < 3, k < 3 (csv:change+threshold)
 	for i := range sers {
 		sers[i] = c18Stamp(r, t0.AddDate(0, 0, i), r.Intn(4))
 		sersDecoy[i] = c18Stamp(r, t0.AddDate(0, 0, 20-3*i+r.Intn(2)), r.Intn(4)) // another order, other instants
@@ -797,10 +797,13 @@ func c18GenCommand(o *hx.Out, r *hx.Rng, tier string) error {
 	if tier == "thorough" {
 		per = 60
 	}
+	// loose: the world is taken as drawn (sets outside the well-formed domain are
+	// judged up to the places of the recorded findings)
+	loose := false
 	gen := func(op c18CmdOpts) c18CmdWorld {
 		w := c18GenCmdWorld(r, op)
 		// prefer worlds inside the well-formed domain (the specification speaks about those)
-		for try := 0; try < 8; try++ {
+		for try := 0; try < 8 && !loose; try++ {
 			res, _ := c18CmdResults(w.Files, op)
 			fl, _ := c18Flatten(res)
 			if _, wf, _ := c18WFTags(fl); wf && len(fl) > 0 {
@@ -817,7 +820,9 @@ func c18GenCommand(o *hx.Out, r *hx.Rng, tier string) error {
 		}
 		for _, class := range classes {
 			op := c18GenCmdOpts(r, class)
+			loose = !op.JI && r.Chance(0.2) // -ji: only the two byte comparisons are judged, they need one map order
 			w := gen(op)
+			loose = false
 			if op.JI {
 				// summaries of an earlier run over other files (default options), as -jo wrote them
 				prev := gen(c18CmdDefaults())
